@@ -7,6 +7,8 @@ G1  maps.interp_edges_to_vol_averages (accumulation rule): for every cell c and 
 G2  Simulation.gradient: anisotropy collection == chain rule of the aliasing of C02/VolumeModel; derivative_chain after the sums
 G3  per source-frequency pair: gfield = Re(bfield * s mu0 * efield) on the efield's grid, a FRESH zero buffer per pair,
     accumulated over all pairs.
+R1/R2 (c07_pos.py)  the forward responses are sampled at receiver.coordinates_abs(source) -- the positions the adjoint sources are placed at
+    (_get_rfield clause) -- for absolute and source-relative receivers and any source (closed loops included).
 Not covered: the two solves, finite-difference convergence order (bounded concrete check only).
 """
 import ast
@@ -404,7 +406,7 @@ def task_concrete():
     tier = os.environ.get('VERIF_TIER', 'quick')
     r = ob.guarded(c07_concrete.check, tier, seed)
     col.concrete('gradient_vs_finite_differences_of_the_misfit', r['reproduced'] is False, r,
-                 bounded='8x8x8 stretched grid, 2 sources x 1..2 frequencies, isotropic / VTI, two mappings, electric + magnetic receivers, NaN datum; 2 (quick) / 6 (thorough) random directions, central differences at two step sizes',
+                 bounded='8x8x8 stretched grid; 2 electric dipoles with absolute receivers and closed wire loop + magnetic dipole + electric dipole with absolute and source-relative receivers; 1..2 frequencies, isotropic / VTI (thorough: all four cases), three (thorough: five) mappings, electric + magnetic receivers, NaN datum; 2 (quick) / 6 (thorough) random directions, central differences at two step sizes; synthetic data sampled at the absolute receiver positions (12 source-receiver pairs)',
                  cases=r.get('cases', 0))
     return col.pack()
 
@@ -412,6 +414,7 @@ def task_concrete():
 def tasks(tier):
     t = [('contracts.c07', 'task_rfield', {}), ('contracts.c07', 'task_edges_to_vol', {}), ('contracts.c07', 'task_spec_derivative', {}), ('contracts.c07', 'task_concrete', {})]
     t += [('contracts.c07', 'task_gradient_assembly', dict(case=c)) for c in ('isotropic', 'HTI', 'VTI', 'triaxial')]
+    t += [('contracts.c07_pos', 'task_receiver_positions', {}), ('contracts.c07_pos', 'task_coordinates_abs', {})]
     from . import c14
     t += [('contracts.c14', 'task_map', dict(cls=c)) for c in c14.MAPS]        # chain factor (dependency closure)
     return t
